@@ -341,7 +341,7 @@ variable {κ ω α : Type} [DecidableEq κ]
 def TableOk (D : List Nat) (t : Table κ ω α) : Prop :=
   ∀ k c, t.find k = some c →
     match c with
-    | .prim a => a.shape = D ∧ a.WF
+    | .prim a _ => a.shape = D ∧ a.WF
     | .derived (.binary e) => e.fromIds ≠ []
     | .derived (.func fs _ _) => fs ≠ []
     | .derived (.parsed _) => True
@@ -360,7 +360,7 @@ theorem getData_spec (I : Interp ω α) (D : List Nat) (t : Table κ ω α) (nv 
     | some c =>
       have hc := hT k c hf
       cases c with
-      | prim a =>
+      | prim a co =>
         simp only at hc
         have hw : (applyViewN a nv).WF := by
           simp only [SArr.WF, applyViewN]
